@@ -1120,7 +1120,10 @@ class SymReal:
         return bool(self != 0)
 
     def __round__(self, n=None):
-        raise TypeError("round() on symbolic value")
+        return sym_round(self, 0 if n is None else n)
+
+    def rint(self):
+        return sym_round(self, 0)
 
     # ---- math used through numpy object loops
     def sqrt(self):
@@ -1499,6 +1502,21 @@ def sym_ceil(x):
             return x
         return _wrap(-z3.ToInt(-x.e))
     return math.ceil(x)
+
+
+def sym_round(x, decimals=0):
+    """round half to even (Python round / numpy.round) at `decimals` decimal places, as an if-then-else term"""
+    if not isinstance(x, SymReal):
+        return round(x, decimals)
+    scale = lift_num(Fraction(10) ** int(decimals))
+    y = _real(x.e) * scale
+    f = z3.ToInt(y)
+    frac = y - z3.ToReal(f)
+    half = lift_num(Fraction(1, 2))
+    r = z3.If(frac < half, f, z3.If(frac > half, f + 1, z3.If(f % 2 == 0, f, f + 1)))
+    if int(decimals) == 0:
+        return _wrap(z3.ToReal(r))
+    return _wrap(z3.ToReal(r) / scale)
 
 
 def sym_floor(x):
